@@ -493,7 +493,9 @@ def run(ctx):
                          % len(SHAPES) + ('' if ctx.quick else ' + every fault pair k1<k2 x 9 class combinations'))
     ctx.assume('SQLite provider only (the transaction lock exists only there); faults replace the driver call; timeout=0 so that SQLite busy '
                'conditions raise instead of waiting')
-    ctx.assume('a fault injected at close() leaves the connection really open: "closed exactly once" is judged on close() calls issued')
+    ctx.assume('a fault injected at close() leaves the connection really open: "closed exactly once" is judged on close() calls issued; '
+               'the harness keeps only weak references, so a connection Pony has forgotten dies (and releases its SQLite locks) as it would in an application')
+    ctx.assume('a violation is reported only if it reproduces on re-execution (join timeouts under machine load do not)')
     return dict(evaluations=executions + sched_exec, distinct_nontrivial=fired + sched_fired,
                 rule='one evaluation = one execution of a session shape under one fault plan followed by the post-condition checks and the '
                      'two follow-up sessions, or one complete thread schedule; non-trivial = the planned fault fired; plans / schedules are '
